@@ -98,10 +98,13 @@ def _guess(rng, lo, hi, root, others=()):
     u = rng.random()
     W = hi - lo
     outside = [r for r in others if not (lo <= r <= hi)]
-    if outside and u < 0.25:
+    if u < 0.20 and outside:
         return float(outside[int(rng.integers(len(outside)))]), "other_root"
-    if u < 0.45:
+    if u < 0.40:
         return float(rng.uniform(lo, hi)), "inside"
+    if u < 0.50:
+        # far outside: f overflows there (exp, powers) -- harmless only because the guess is clipped first
+        return float(rng.choice([-1.0, 1.0]) * 10.0 ** rng.uniform(100, 307)), "far_outside"
     if u < 0.75:
         side = rng.random() < 0.5
         d = W * 10.0 ** rng.uniform(-3, 1)
